@@ -1,1 +1,19 @@
-(* C17 *)
+(* C17 — IndexedGrammar.is_empty. *)
+From Coq Require Import List NArith.
+From PFL Require Import Spec.Ig Model.Ig Proofs.IgMark.
+
+(* Aho's marking, as the least fixed point of the rules the code iterates, answers "empty" exactly when no terminal word
+   can be rewritten from the start nonterminal with an empty index stack (rewriting semantics of Spec/Ig.v) *)
+Theorem C17_is_empty : forall (R : list irule) (S : N), ig_is_empty R S = true <-> ~ ig_nonempty R S.
+Proof. exact ig_is_empty_spec. Qed.
+Print Assumptions C17_is_empty.
+
+(* tree-shaped derivations and rewriting agree on terminal words *)
+Theorem C17_tree_vs_rewriting : forall (R : list irule) (A : N) (s w : list N), ider R A s w <-> isteps R (INT A s :: nil) (map IT w).
+Proof. exact ider_small_step. Qed.
+Print Assumptions C17_tree_vs_rewriting.
+
+(* the meaning of a marked pair (A, T): on every stack, A derives a word as soon as every member of T does *)
+Theorem C17_marks_sound : forall (R : list irule) (S : N) (it : mitem), In it (marks R S) -> Sem R it.
+Proof. exact marks_sound. Qed.
+Print Assumptions C17_marks_sound.
